@@ -9,7 +9,7 @@ from .. import core, pipes, structural as st
 
 THEOREMS = ['Pk.C05.C05_pairs', 'Pk.C05.C05_count', 'Pk.C05.C05_consecutive', 'Pk.C05.C05_aligned',
             'Pk.C05.C05_shifted_has_no_inputs', 'Pk.C05.C05_explicit_eq', 'Pk.C05.C05_relabel',
-            'Pk.C05.C05_relabel_perm']
+            'Pk.C05.C05_relabel_perm', 'Pk.C05.C05_gram_perm']
 ALG = ['poly', 'bilinear', 'const', 'delay']
 
 
